@@ -155,7 +155,7 @@ theorem enc_sop2 (c : Bool) (d : Desc) (row : Row) (f : Format)
   intro w1? hw1
   have l0 := getOperand_isLit (by omega) g0
   have l1 := getOperand_isLit (by omega) g1
-  have hsec : encSecond d = d.lit := by simp [encSecond, hft, FT_SOP2, FT_SMEM]
+  have hsec : encSecond d = d.lit := by simp [encSecond, hft, FT_SOP2, FT_SOPK, FT_SOP1, FT_SOPC, FT_SOPP, FT_SMEM, FT_VOP2, FT_VOP1, FT_VOPC, FT_VOP3a, FT_VOP3b, FT_FLAT, FT_DS]
   rw [hsec] at hw1
   have hul : usesLit d = (d.ssrc0 == 255 || d.ssrc1 == 255) := by simp [usesLit, hft, FT_SOP2]
   rw [hul] at hl
@@ -189,7 +189,7 @@ theorem extractBits_8_12 (x : Nat) : extractBits x 8 12 = x / 256 % 32 := by sim
 theorem enc_sopk (c : Bool) (d : Desc) (row : Row) (f : Format)
     (hft : d.ft = FT_SOPK) (hf : f.ft = FT_SOPK) (hsz : f.size = 4)
     (hro : row.opcode = d.op) (hop : d.op < 32)
-    (hfo : fieldsOK d = true) (hl : d.lit.isSome = usesLit d) :
+    (hfo : fieldsOK d = true) (hl : d.lit.isSome = usesLit d) (hdev : deviates d = false) :
     encWord d < 2 ^ 32 ∧ encWord d / 2 ^ 28 = 11 ∧ extractBits (encWord d) 23 27 = d.op ∧
     ∀ w1?, (∀ l, encSecond d = some l → w1? = some l) →
       decodeRow c f row (encWord d) w1? = .ok (instOfRow d row) := by
@@ -205,7 +205,9 @@ theorem enc_sopk (c : Bool) (d : Desc) (row : Row) (f : Format)
   generalize encWord d = w at xi xd ⊢
   intro w1? hw1
   have hsec : encSecond d = d.lit := by simp [encSecond, hft, FT_SOP2, FT_SOPK, FT_SOP1, FT_SOPC, FT_SOPP, FT_SMEM, FT_VOP2, FT_VOP1, FT_VOPC, FT_VOP3a, FT_VOP3b, FT_FLAT, FT_DS]
-  have hul : usesLit d = false := by simp [usesLit, hft, FT_SOP2, FT_SOPK, FT_SOP1, FT_SOPC, FT_SOPP, FT_SMEM, FT_VOP2, FT_VOP1, FT_VOPC, FT_VOP3a, FT_VOP3b, FT_FLAT, FT_DS]
+  have hul : usesLit d = false := by
+    simp [deviates, hft, FT_SOP2, FT_SOPK, FT_SOP1, FT_SOPC, FT_SOPP, FT_SMEM, FT_VOP2, FT_VOP1, FT_VOPC, FT_VOP3a, FT_VOP3b, FT_FLAT, FT_DS] at hdev
+    simp [usesLit, hft, hdev, FT_SOP2, FT_SOPK, FT_SOP1, FT_SOPC, FT_SOPP, FT_SMEM, FT_VOP2, FT_VOP1, FT_VOPC, FT_VOP3a, FT_VOP3b, FT_FLAT, FT_DS]
   rw [hul] at hl
   have hlit : d.lit = none := by cases h : d.lit <;> simp [h] at hl ⊢
   unfold decodeRow instOfRow
@@ -384,14 +386,15 @@ theorem enc_vop1 (c : Bool) (d : Desc) (row : Row) (f : Format)
 
 theorem enc_vop2 (c : Bool) (d : Desc) (row : Row) (f : Format)
     (hft : d.ft = FT_VOP2) (hf : f.ft = FT_VOP2) (hsz : f.size = 4)
-    (hro : row.opcode = d.op) (hop : d.op < 64)
+    (hro : row.opcode = d.op) (hop : d.op < 64) (hs : (d.sdwa == 1) = false)
     (hfo : fieldsOK d = true) (hl : d.lit.isSome = usesLit d) :
     encWord d < 2 ^ 32 ∧ encWord d / 2 ^ 31 = 0 ∧ extractBits (encWord d) 25 30 = d.op ∧
     ∀ w1?, (∀ l, encSecond d = some l → w1? = some l) →
       decodeRow c f row (encWord d) w1? = .ok (instOfRow d row) := by
+  have hs' : ¬ d.sdwa = 1 := by simpa using hs
   have hW : encWord d = d.op * 2 ^ 25 + d.vdst * 2 ^ 17 + d.vsrc1 * 2 ^ 9 + d.src0 := by
-    simp [encWord, hft, FT_SOP2, FT_SOPK, FT_SOP1, FT_SOPC, FT_SOPP, FT_SMEM, FT_VOP2, FT_VOP1, FT_VOPC, FT_VOP3a, FT_VOP3b, FT_FLAT, FT_DS]
-  simp [fieldsOK, hft, FT_SOP2, FT_SOPK, FT_SOP1, FT_SOPC, FT_SOPP, FT_SMEM, FT_VOP2, FT_VOP1, FT_VOPC, FT_VOP3a, FT_VOP3b, FT_FLAT, FT_DS] at hfo
+    simp [encWord, hft, hs', FT_SOP2, FT_SOPK, FT_SOP1, FT_SOPC, FT_SOPP, FT_SMEM, FT_VOP2, FT_VOP1, FT_VOPC, FT_VOP3a, FT_VOP3b, FT_FLAT, FT_DS]
+  simp [fieldsOK, hft, hs', FT_SOP2, FT_SOPK, FT_SOP1, FT_SOPC, FT_SOPP, FT_SMEM, FT_VOP2, FT_VOP1, FT_VOPC, FT_VOP3a, FT_VOP3b, FT_FLAT, FT_DS] at hfo
   obtain ⟨⟨h0, b1⟩, bd⟩ := hfo
   obtain ⟨b0, s0, g0, e0⟩ := codeOK_some h0
   have x0 : extractBits (encWord d) 0 8 = d.src0 := by rw [hW]; unfold extractBits; omega
@@ -406,12 +409,12 @@ theorem enc_vop2 (c : Bool) (d : Desc) (row : Row) (f : Format)
     cases h : d.src0 == 249 with
     | false => rfl
     | true => rw [beq_iff_eq.mp h, getOperand_249] at g0; simp at g0
-  have hsec : encSecond d = d.lit := by simp [encSecond, hft, FT_SOP2, FT_SOPK, FT_SOP1, FT_SOPC, FT_SOPP, FT_SMEM, FT_VOP2, FT_VOP1, FT_VOPC, FT_VOP3a, FT_VOP3b, FT_FLAT, FT_DS]
+  have hsec : encSecond d = d.lit := by simp [encSecond, hft, hs', FT_SOP2, FT_SOPK, FT_SOP1, FT_SOPC, FT_SOPP, FT_SMEM, FT_VOP2, FT_VOP1, FT_VOPC, FT_VOP3a, FT_VOP3b, FT_FLAT, FT_DS]
   rw [hsec] at hw1
-  have hul : usesLit d = (d.src0 == 255 || isKOpcode d.op) := by simp [usesLit, hft, FT_SOP2, FT_SOPK, FT_SOP1, FT_SOPC, FT_SOPP, FT_SMEM, FT_VOP2, FT_VOP1, FT_VOPC, FT_VOP3a, FT_VOP3b, FT_FLAT, FT_DS]
+  have hul : usesLit d = (d.src0 == 255 || isKOpcode d.op) := by simp [usesLit, hft, hs', FT_SOP2, FT_SOPK, FT_SOP1, FT_SOPC, FT_SOPP, FT_SMEM, FT_VOP2, FT_VOP1, FT_VOPC, FT_VOP3a, FT_VOP3b, FT_FLAT, FT_DS]
   rw [hul] at hl
   unfold decodeRow instOfRow
-  simp only [hsz, hsec, dec4, hf, hft, FT_SOP2, FT_SOPK, FT_SOP1, FT_SOPC, FT_SOPP, FT_SMEM, FT_VOP2, FT_VOP1, FT_VOPC, FT_VOP3a, FT_VOP3b, FT_FLAT, FT_DS, decodeVOP2, x0, x1, xd, n249, g0, l0, e0, hro]
+  simp only [hsz, hsec, dec4, hf, hft, hs, FT_SOP2, FT_SOPK, FT_SOP1, FT_SOPC, FT_SOPP, FT_SMEM, FT_VOP2, FT_VOP1, FT_VOPC, FT_VOP3a, FT_VOP3b, FT_FLAT, FT_DS, decodeVOP2, x0, x1, xd, n249, g0, l0, e0, hro]
   cases hlit : d.lit with
   | none =>
     rw [hlit] at hl
@@ -481,7 +484,8 @@ theorem fmt_smem : FmtIs FT_SMEM 8 18 25 26 48 := by unfold FmtIs; decide
 
 theorem fieldsOK_ft {d : Desc} (h : fieldsOK d = true) :
     d.ft = FT_SOP2 ∨ d.ft = FT_SOPK ∨ d.ft = FT_SOP1 ∨ d.ft = FT_SOPC ∨ d.ft = FT_SOPP ∨
-    d.ft = FT_VOP2 ∨ d.ft = FT_VOP1 ∨ d.ft = FT_VOPC ∨ d.ft = FT_SMEM := by
+    d.ft = FT_VOP2 ∨ d.ft = FT_VOP1 ∨ d.ft = FT_VOPC ∨ d.ft = FT_SMEM ∨
+    d.ft = FT_VOP3a ∨ d.ft = FT_VOP3b ∨ d.ft = FT_DS ∨ d.ft = FT_FLAT := by
   by_cases h1 : d.ft = FT_SOP2; · simp [h1]
   by_cases h2 : d.ft = FT_SOPK; · simp [h2]
   by_cases h3 : d.ft = FT_SOP1; · simp [h3]
@@ -491,25 +495,69 @@ theorem fieldsOK_ft {d : Desc} (h : fieldsOK d = true) :
   by_cases h7 : d.ft = FT_VOP1; · simp [h7]
   by_cases h8 : d.ft = FT_VOPC; · simp [h8]
   by_cases h9 : d.ft = FT_SMEM; · simp [h9]
+  by_cases h10 : d.ft = FT_VOP3a; · simp [h10]
+  by_cases h11 : d.ft = FT_VOP3b; · simp [h11]
+  by_cases h12 : d.ft = FT_DS; · simp [h12]
+  by_cases h13 : d.ft = FT_FLAT; · simp [h13]
   exfalso
-  simp [fieldsOK, h1, h2, h3, h4, h5, h6, h7, h8, h9] at h
+  simp [fieldsOK, h1, h2, h3, h4, h5, h6, h7, h8, h9, h10, h11, h12, h13] at h
 
 theorem encSecond_lt {d : Desc} (hfo : fieldsOK d = true)
     (hlb : (match d.lit with | some l => decide (l < 2 ^ 32) | none => true) = true)
     {l : Nat} (h : encSecond d = some l) : l < 2 ^ 32 := by
-  unfold encSecond at h
-  split at h
-  · rename_i hs
-    simp only [beq_iff_eq] at hs
-    injection h with h
-    subst h
-    simp [fieldsOK, hs, FT_SOP2, FT_SOPK, FT_SOP1, FT_SOPC, FT_SOPP, FT_SMEM, FT_VOP2, FT_VOP1, FT_VOPC] at hfo
+  have hlit : ∀ l, d.lit = some l → l < 2 ^ 32 := by
+    intro l hl
+    rw [hl] at hlb
+    simpa using hlb
+  rcases fieldsOK_ft hfo with h1 | h1 | h1 | h1 | h1 | h1 | h1 | h1 | h1 | h1 | h1 | h1 | h1
+  · simp [encSecond, h1, FT_SOP2, FT_SOPK, FT_SOP1, FT_SOPC, FT_SOPP, FT_SMEM, FT_VOP2, FT_VOP1, FT_VOPC, FT_VOP3a, FT_VOP3b, FT_FLAT, FT_DS] at h; exact hlit l h
+  · simp [encSecond, h1, FT_SOP2, FT_SOPK, FT_SOP1, FT_SOPC, FT_SOPP, FT_SMEM, FT_VOP2, FT_VOP1, FT_VOPC, FT_VOP3a, FT_VOP3b, FT_FLAT, FT_DS] at h; exact hlit l h
+  · simp [encSecond, h1, FT_SOP2, FT_SOPK, FT_SOP1, FT_SOPC, FT_SOPP, FT_SMEM, FT_VOP2, FT_VOP1, FT_VOPC, FT_VOP3a, FT_VOP3b, FT_FLAT, FT_DS] at h; exact hlit l h
+  · simp [encSecond, h1, FT_SOP2, FT_SOPK, FT_SOP1, FT_SOPC, FT_SOPP, FT_SMEM, FT_VOP2, FT_VOP1, FT_VOPC, FT_VOP3a, FT_VOP3b, FT_FLAT, FT_DS] at h; exact hlit l h
+  · simp [encSecond, h1, FT_SOP2, FT_SOPK, FT_SOP1, FT_SOPC, FT_SOPP, FT_SMEM, FT_VOP2, FT_VOP1, FT_VOPC, FT_VOP3a, FT_VOP3b, FT_FLAT, FT_DS] at h; exact hlit l h
+  · by_cases hs : d.sdwa = 1
+    · simp [encSecond, h1, hs, FT_SOP2, FT_SOPK, FT_SOP1, FT_SOPC, FT_SOPP, FT_SMEM, FT_VOP2, FT_VOP1, FT_VOPC, FT_VOP3a, FT_VOP3b, FT_FLAT, FT_DS] at h
+      simp [fieldsOK, h1, hs, FT_SOP2, FT_SOPK, FT_SOP1, FT_SOPC, FT_SOPP, FT_SMEM, FT_VOP2, FT_VOP1, FT_VOPC, FT_VOP3a, FT_VOP3b, FT_FLAT, FT_DS] at hfo
+      subst h
+      unfold sdwaWord
+      omega
+    · simp [encSecond, h1, hs, FT_SOP2, FT_SOPK, FT_SOP1, FT_SOPC, FT_SOPP, FT_SMEM, FT_VOP2, FT_VOP1, FT_VOPC, FT_VOP3a, FT_VOP3b, FT_FLAT, FT_DS] at h; exact hlit l h
+  · simp [encSecond, h1, FT_SOP2, FT_SOPK, FT_SOP1, FT_SOPC, FT_SOPP, FT_SMEM, FT_VOP2, FT_VOP1, FT_VOPC, FT_VOP3a, FT_VOP3b, FT_FLAT, FT_DS] at h; exact hlit l h
+  · simp [encSecond, h1, FT_SOP2, FT_SOPK, FT_SOP1, FT_SOPC, FT_SOPP, FT_SMEM, FT_VOP2, FT_VOP1, FT_VOPC, FT_VOP3a, FT_VOP3b, FT_FLAT, FT_DS] at h; exact hlit l h
+  · simp [encSecond, h1, FT_SOP2, FT_SOPK, FT_SOP1, FT_SOPC, FT_SOPP, FT_SMEM, FT_VOP2, FT_VOP1, FT_VOPC, FT_VOP3a, FT_VOP3b, FT_FLAT, FT_DS] at h
+    simp [fieldsOK, h1, FT_SOP2, FT_SOPK, FT_SOP1, FT_SOPC, FT_SOPP, FT_SMEM, FT_VOP2, FT_VOP1, FT_VOPC, FT_VOP3a, FT_VOP3b, FT_FLAT, FT_DS] at hfo
     have : d.offset < 2 ^ 20 := by
       rcases hfo with ⟨_, ho⟩
       split at ho <;> omega
     omega
-  · rw [h] at hlb
-    simpa using hlb
+  · simp [encSecond, h1, FT_SOP2, FT_SOPK, FT_SOP1, FT_SOPC, FT_SOPP, FT_SMEM, FT_VOP2, FT_VOP1, FT_VOPC, FT_VOP3a, FT_VOP3b, FT_FLAT, FT_DS] at h
+    simp [fieldsOK, h1, FT_SOP2, FT_SOPK, FT_SOP1, FT_SOPC, FT_SOPP, FT_SMEM, FT_VOP2, FT_VOP1, FT_VOPC, FT_VOP3a, FT_VOP3b, FT_FLAT, FT_DS] at hfo
+    obtain ⟨⟨⟨⟨⟨⟨⟨⟨_, a0⟩, a1⟩, a2⟩, _⟩, b1⟩, b2⟩, _⟩, _⟩ := hfo
+    have c0 := (codeOK_some a0).1
+    have c1 := (codeOK_some a1).1
+    have c2 := (codeOK_some a2).1
+    subst h
+    simp [hiWord, h1, FT_SOP2, FT_SOPK, FT_SOP1, FT_SOPC, FT_SOPP, FT_SMEM, FT_VOP2, FT_VOP1, FT_VOPC, FT_VOP3a, FT_VOP3b, FT_FLAT, FT_DS]
+    omega
+  · simp [encSecond, h1, FT_SOP2, FT_SOPK, FT_SOP1, FT_SOPC, FT_SOPP, FT_SMEM, FT_VOP2, FT_VOP1, FT_VOPC, FT_VOP3a, FT_VOP3b, FT_FLAT, FT_DS] at h
+    simp [fieldsOK, h1, FT_SOP2, FT_SOPK, FT_SOP1, FT_SOPC, FT_SOPP, FT_SMEM, FT_VOP2, FT_VOP1, FT_VOPC, FT_VOP3a, FT_VOP3b, FT_FLAT, FT_DS] at hfo
+    obtain ⟨⟨⟨⟨⟨⟨⟨_, _⟩, a0⟩, a1⟩, a2⟩, b1⟩, b2⟩, _⟩ := hfo
+    have c0 := (codeOK_some a0).1
+    have c1 := (codeOK_some a1).1
+    have c2 := (codeOK_some a2).1
+    subst h
+    simp [hiWord, h1, FT_SOP2, FT_SOPK, FT_SOP1, FT_SOPC, FT_SOPP, FT_SMEM, FT_VOP2, FT_VOP1, FT_VOPC, FT_VOP3a, FT_VOP3b, FT_FLAT, FT_DS]
+    omega
+  · simp [encSecond, h1, FT_SOP2, FT_SOPK, FT_SOP1, FT_SOPC, FT_SOPP, FT_SMEM, FT_VOP2, FT_VOP1, FT_VOPC, FT_VOP3a, FT_VOP3b, FT_FLAT, FT_DS] at h
+    simp [fieldsOK, h1, FT_SOP2, FT_SOPK, FT_SOP1, FT_SOPC, FT_SOPP, FT_SMEM, FT_VOP2, FT_VOP1, FT_VOPC, FT_VOP3a, FT_VOP3b, FT_FLAT, FT_DS] at hfo
+    subst h
+    simp [hiWord, h1, FT_SOP2, FT_SOPK, FT_SOP1, FT_SOPC, FT_SOPP, FT_SMEM, FT_VOP2, FT_VOP1, FT_VOPC, FT_VOP3a, FT_VOP3b, FT_FLAT, FT_DS]
+    omega
+  · simp [encSecond, h1, FT_SOP2, FT_SOPK, FT_SOP1, FT_SOPC, FT_SOPP, FT_SMEM, FT_VOP2, FT_VOP1, FT_VOPC, FT_VOP3a, FT_VOP3b, FT_FLAT, FT_DS] at h
+    simp [fieldsOK, h1, FT_SOP2, FT_SOPK, FT_SOP1, FT_SOPC, FT_SOPP, FT_SMEM, FT_VOP2, FT_VOP1, FT_VOPC, FT_VOP3a, FT_VOP3b, FT_FLAT, FT_DS] at hfo
+    subst h
+    simp [hiWord, h1, FT_SOP2, FT_SOPK, FT_SOP1, FT_SOPC, FT_SOPP, FT_SMEM, FT_VOP2, FT_VOP1, FT_VOPC, FT_VOP3a, FT_VOP3b, FT_FLAT, FT_DS]
+    omega
 
 /-- One table row, one format, one encoded first dword: if every word that carries the format's
     encoding and the row's opcode is matched to (format, row), the encoded dword is such a word,
